@@ -95,11 +95,16 @@ func c11case(c *wk.Ctx, idx int, r *rand.Rand, h c11history) {
 	rejectedFrames := 0
 	hold := map[uint64]bool{}
 	sawNewSaltAt := map[int64]bool{}
+	var grace int64 // a salt announced by new_session_created is valid at once; the previous one stays valid until the client has acknowledged
+	graceOn := false
 	e, err := newRPCEnv(c, idx, r, envOpts{
 		Fresh: h.Fresh,
 		Any: func(e *rpcEnv, cn *refserver.Conn, in *mtp.Inner) bool {
 			cur := e.salt()
-			if in.Salt == cur {
+			mu.Lock()
+			g, gok := grace, graceOn
+			mu.Unlock()
+			if in.Salt == cur || (gok && in.Salt == g) {
 				return false
 			}
 			// a conformant server refuses any message under a wrong salt and names the right one
@@ -193,22 +198,60 @@ func c11case(c *wk.Ctx, idx int, r *rand.Rand, h c11history) {
 		// rotation
 		newSalt := int64(r.Uint64())
 		if st.Announce {
-			conns := e.srv.Conns()
-			cn := conns[len(conns)-1]
-			if k, _ := cn.KeySession(); k == nil {
-				// no encrypted traffic yet on this connection: make one call first
+			// the announcement needs a connection that has carried encrypted traffic: make one call first if needed
+			var cn *refserver.Conn
+			if conns := e.srv.Conns(); len(conns) > 0 {
+				cn = conns[len(conns)-1]
+			}
+			if k, _ := func() ([]byte, int64) {
+				if cn == nil {
+					return nil, 0
+				}
+				return cn.KeySession()
+			}(); k == nil {
 				var wg0 sync.WaitGroup
 				launch(1, false, &wg0)
 				if !withTimeout(20*time.Second, wg0.Wait) {
 					fail("warm-up")
 					return
 				}
+				conns := e.srv.Conns()
+				if len(conns) == 0 {
+					c.Log.Emit(coreInconclusive("c11: no server-side connection after the warm-up call"))
+					return
+				}
+				cn = conns[len(conns)-1]
 			}
 			old := e.salt()
-			cn.SendEncrypted(refserver.Out{MsgID: e.srv.NextMsgID(3), SeqNo: cn.NextSeq(true), Body: refserver.NewSessionCreated(1, int64(r.Uint64()), newSalt)}, old, "new_session_created", nil)
+			annID := e.srv.NextMsgID(3)
+			e.mu.Lock()
+			e.sentCont[annID] = true
+			e.mu.Unlock()
+			// the announced salt is valid from the moment it is announced (set before sending: the client's
+			// acknowledgement may arrive before this goroutine runs again); the old one stays valid until then
+			mu.Lock()
+			grace, graceOn = old, true
+			mu.Unlock()
 			e.srv.SetSalt(e.key, newSalt)
-			// let the client adopt it (the acknowledgement of new_session_created arrives under either salt)
-			time.Sleep(30 * time.Millisecond)
+			cn.SendEncrypted(refserver.Out{MsgID: annID, SeqNo: cn.NextSeq(true), Body: refserver.NewSessionCreated(1, int64(r.Uint64()), newSalt)}, old, "new_session_created", nil)
+			// the client has processed the announcement once its acknowledgement is in (it acknowledges after
+			// handling); that is a logical condition, not a delay. The server keeps accepting the old salt until then.
+			acked := false
+			for w := 0; w < 1500 && !acked; w++ {
+				e.mu.Lock()
+				acked = e.acked[annID]
+				e.mu.Unlock()
+				if !acked {
+					time.Sleep(10 * time.Millisecond)
+				}
+			}
+			if !acked {
+				c.Log.Emit(coreInconclusive("c11: new_session_created was not acknowledged within the watchdog; store check skipped for " + desc))
+				return
+			}
+			mu.Lock()
+			graceOn = false
+			mu.Unlock()
 		} else {
 			e.srv.SetSalt(e.key, newSalt)
 		}
